@@ -16,8 +16,11 @@
 (* an appended geometry (its own charges or zeros), the weights given to rows  *)
 (* taken from another ensemble (its weights or 1), whether extend([]) raises,  *)
 (* whether an ensemble WITHOUT ATOMS refuses its first conformer or adopts its *)
-(* constitution, what iterators / held views do across a change of the number  *)
-(* of conformers (they are dropped), exception classes.                        *)
+(* constitution, what a RUNNING iterator does when the number of conformers    *)
+(* changes (it is abandoned), exception classes.  NOT free: a conformer object  *)
+(* the caller holds (from ens[i], a slice, an iteration) is a view of its row   *)
+(* for as long as the ensemble lives - across append/extend, transformations    *)
+(* and whole-array assignments.                                                 *)
 EXTENDS Integers, Sequences, FiniteSets, TLC
 CONSTANTS Iter,        \* iterator objects
           MaxConf,     \* bound on conformers (guard of the growing actions)
@@ -67,7 +70,11 @@ Init == ens = NoEns /\ its = [it \in Iter |-> NoIt] /\ nt = 0 /\ last = [act |->
 Note(a, o)  == last' = a @@ [out |-> o]
 DropIts     == its' = [it \in Iter |-> NoIt]
 Fail(a)     == UNCHANGED sv /\ Note(a, "error")
-FailDrop(a) == UNCHANGED <<ens, nt>> /\ DropIts /\ Note(a, "error")
+(* append / extend abandon the running iterations (what a live iterator does when the ensemble grows is left *)
+(* free) - but every conformer the caller already holds stays a view of its row: rows are only added behind *)
+RetireIts   == its' = [it \in Iter |-> [its[it] EXCEPT !.pos = -1,
+                                                      !.views = IF "GrowthOrphansViews" \in Deviations THEN [j \in 1..Len(@) |-> 0] ELSE @]]
+FailRetire(a) == UNCHANGED <<ens, nt>> /\ RetireIts /\ Note(a, "error")
 Fresh(e, a) == ens' = e /\ DropIts /\ UNCHANGED nt /\ Note(a, "ok")
 
 (* ---- constructors ------------------------------------------------------- *)
@@ -112,22 +119,22 @@ WChoice(n, ws0)    == (IF "wsrc" \in Free THEN {ws0} ELSE {}) \cup (IF "wone" \i
 Grow(a, k, b, cs, qs0, ws0) ==
   /\ ens.made
   /\ IF Len(cs) = 0
-       THEN \/ "ext0err" \in Free /\ FailDrop(a)
-            \/ "ext0ok" \in Free /\ UNCHANGED <<ens, nt>> /\ DropIts /\ Note(a, "ok")
+       THEN \/ "ext0err" \in Free /\ FailRetire(a)
+            \/ "ext0ok" \in Free /\ UNCHANGED <<ens, nt>> /\ RetireIts /\ Note(a, "ok")
      ELSE IF NoAtoms /\ k > 0
-       THEN \/ "refuse" \in Free /\ FailDrop(a)
+       THEN \/ "refuse" \in Free /\ FailRetire(a)
             \/ /\ "adopt" \in Free /\ Len(cs) <= MaxConf
                /\ \E qs \in QChoice(k, Len(cs), qs0), ws \in WChoice(Len(cs), ws0) :
-                    ens' = Adopted(k, b, cs, qs, ws) /\ DropIts /\ UNCHANGED nt /\ Note(a, "ok")
+                    ens' = Adopted(k, b, cs, qs, ws) /\ RetireIts /\ UNCHANGED nt /\ Note(a, "ok")
      ELSE IF k # ens.na
-       THEN FailDrop(a)
+       THEN FailRetire(a)
      ELSE /\ N + Len(cs) <= MaxConf
           /\ \E qs \in QChoice(k, Len(cs), qs0), ws \in WChoice(Len(cs), ws0) :
-               ens' = Grown(cs, qs, ws) /\ DropIts /\ UNCHANGED nt /\ Note(a, "ok")
+               ens' = Grown(cs, qs, ws) /\ RetireIts /\ UNCHANGED nt /\ Note(a, "ok")
 
-AppendC(m) == (On("grow") \/ On("iter")) /\ Grow([act |-> "append", m |-> m], m.na, m.nb, <<m.g>>, <<m.q>>, <<W1>>)
+AppendC(m) == (On("grow") \/ On("iter") \/ On("append")) /\ Grow([act |-> "append", m |-> m], m.na, m.nb, <<m.g>>, <<m.q>>, <<W1>>)
 ExtendList(ms) ==
-  /\ On("grow") /\ SameNa(ms, IF Len(ms) = 0 THEN 0 ELSE ms[1].na)
+  /\ (On("grow") \/ On("append")) /\ SameNa(ms, IF Len(ms) = 0 THEN 0 ELSE ms[1].na)
   /\ Grow([act |-> "extlist", ms |-> ms], IF Len(ms) = 0 THEN ens.na ELSE ms[1].na, IF Len(ms) = 0 THEN 0 ELSE ms[1].nb,
           [i \in 1..Len(ms) |-> ms[i].g], [i \in 1..Len(ms) |-> ms[i].q], Ones(Len(ms)))
 (* extend(other ensemble); how = "self" is ens.extend(ens)                     *)
@@ -199,6 +206,14 @@ VTranslate(i, v) ==                                  \* ens[i].translate(v): a M
 SetW(i, w) ==                                        \* ens.weights[i] = w
   /\ VW(i) /\ i <= Len(ens.W) /\ Mut
   /\ ens' = [ens EXCEPT !.W[i] = w] /\ Note([act |-> "setw", i |-> i, w |-> w], "ok")
+
+(* ens.coords = X / ens.atomic_charges = X / ens.weights = X: whole-array assignment  *)
+AssignC(CC) == /\ On("view") /\ ens.made /\ Len(CC) = N /\ RowsOK(CC, ens.na) /\ Mut
+               /\ ens' = [ens EXCEPT !.C = CC] /\ Note([act |-> "asc", X |-> CC], "ok")
+AssignQ(QQ) == /\ On("view") /\ ens.made /\ Len(QQ) = N /\ RowsOK(QQ, ens.na) /\ Len(ens.Q) = N /\ Mut
+               /\ ens' = [ens EXCEPT !.Q = QQ] /\ Note([act |-> "asq", X |-> QQ], "ok")
+AssignW(ws) == /\ On("view") /\ ens.made /\ Len(ws) = N /\ Len(ens.W) = N /\ Mut
+               /\ ens' = [ens EXCEPT !.W = ws] /\ Note([act |-> "asw", X |-> ws], "ok")
 
 (* ---- writes through the SOURCE of a copy-constructed ensemble ------------- *)
 SOK(i) == On("copy") /\ ens.made /\ ens.S.made /\ i \in 1..Len(ens.S.C)
@@ -325,6 +340,9 @@ Next ==
   \/ \E i \in ConfIdx, b \in AtomIdx, v \in VecPool : VSetAtom(i, b, v)
   \/ \E i \in ConfIdx, v \in VecPool : VTranslate(i, v)
   \/ \E i \in ConfIdx, w \in WPool : SetW(i, w)
+  \/ \E m \in PoolSet : AssignC([i \in 1..N |-> m.g])
+  \/ \E m \in PoolSet : AssignQ([i \in 1..N |-> Q2(m.q)])
+  \/ \E w \in WPool : AssignW([i \in 1..N |-> w])
   \/ \E it \in Iter : StartIter(it)
   \/ \E it \in Iter : NextIt(it)
   \/ \E it \in Iter : Collect(it)
@@ -377,6 +395,10 @@ WriteThrough ==
                                /\ \A j \in 1..Len(ens.Q) : j # last'.i => ens'.Q[j] = ens.Q[j])
      /\ (last'.act \in {"vsa", "vtr"} => OthersC(last'.i) /\ ens'.Q = ens.Q /\ ens'.W = ens.W)
      /\ (last'.act = "vsa" => ens'.C[last'.i][last'.b] = last'.p)]_vars
+AssignTouchesOneArray ==
+  [][/\ (last'.act = "asc" => ens'.C = last'.X /\ ens'.Q = ens.Q /\ ens'.W = ens.W)
+     /\ (last'.act = "asq" => ens'.Q = last'.X /\ ens'.C = ens.C /\ ens'.W = ens.W)
+     /\ (last'.act = "asw" => ens'.W = last'.X /\ ens'.C = ens.C /\ ens'.Q = ens.Q)]_vars
 (* collective transformations touch every coordinate row and only coordinates  *)
 TransformsOnlyCoords ==
   [][last'.act \in {"scale", "invert", "translate", "rotate", "center", "rotstack", "trstack"} /\ last'.out = "ok" =>
